@@ -57,6 +57,27 @@ def play_case(case_id: str, seed: int, force_variant=None, profile=None, max_ops
     if meta.get('director') == 'rule96':
         bb = max(kw['raw_blinds_or_straddles'])
         tune.update(director='rule96', short_cap=7 * bb, p_bad=0.0, p_probe=0.6, p_can=0.5, unknown=False)
+    elif meta.get('director') == 'stud8':
+        tune.update(fold=0.004, call=8.0, shove=0.05, p_bad=rng.choice([0.0, 0.03]), unknown=False)
+        tune['raise'] = 0.4
+    elif meta.get('director') == 'bigpost':
+        tune.update(director='bigpost', p_bad=0.0, p_probe=0.5, p_can=0.5, unknown=False)
+    elif meta.get('director') == 'deck_boundary':
+        tune.update(director='deck_boundary', fold=0.02, call=6.0, maxdraw=1.0, shove=(3.0 if meta.get('variant') == 'NR' else 0.1),
+                    p_bad=rng.choice([0.0, 0.03]), unknown=False)
+    elif meta.get('director') == 'chop':
+        from pokerkit import Card
+        ranks = rng.sample('AKQJT98', 2)
+        suits = rng.sample('cdhs', 4)
+        hands = [[r + suits[(2 * i + k) % 4] for k, r in enumerate(ranks)] for i in range(2)]
+        tune.update(director='chop', p_bad=0.0, unknown=False, fold=0.0,
+                    chop_cards={i: list(Card.parse(''.join(h))) for i, h in enumerate(hands)})
+        if rng.random() < 0.5:
+            tune.update(call=6.0, shove=0.0)
+            tune['raise'] = 0.0
+        else:
+            tune.update(call=2.0, shove=6.0)
+            tune['raise'] = 2.0
     elif meta.get('director') == 'exact_deck':
         tune.update(fold=0.03, call=5.0, p_bad=rng.choice([0.0, 0.05]), unknown=False)
     meta['style'] = tune['style']
